@@ -1,7 +1,8 @@
 use crate::ast::{BinaryOp, Commented, Expr, RecordEntry, RecordKey, SpannedExpr};
+use crate::ast::UnaryOp;
 use crate::ast_to_source::{
     expr_to_source, format_record_key, lambda_body_needs_parens, needs_parens_in_binop,
-    needs_parens_in_postfix,
+    needs_parens_in_postfix, needs_parens_in_unary,
 };
 use crate::values::LambdaArg;
 use std::cell::RefCell;
@@ -63,8 +64,10 @@ fn format_expr_uncached(expr: &SpannedExpr, max_cols: usize, indent: usize) -> S
     let first_line = single_line.lines().next().unwrap_or(&single_line);
     let current_line_length = indent + first_line.len();
 
-    // If the first line fits and there are no newlines, use single-line format
-    if !single_line.contains('\n') && current_line_length <= max_cols {
+    // If the first line fits and there are no newlines, use single-line format - unless a
+    // comment sits somewhere inside: operands of operators are printed on one line through
+    // `expr_to_source`, which has no place for the comments of a list or record
+    if !single_line.contains('\n') && current_line_length <= max_cols && !contains_comments(expr) {
         return single_line;
     }
 
@@ -174,8 +177,108 @@ fn format_multiline(expr: &SpannedExpr, max_cols: usize, indent: usize) -> Strin
             statements,
             return_expr,
         } => format_do_block_multiline(statements, return_expr, max_cols, indent),
+        // Operands that carry comments are laid out, so that the comments are kept
+        Expr::UnaryOp { op, expr: operand } if contains_comments(operand) => format!(
+            "{}{}",
+            unary_op_str(op),
+            parens_if(
+                needs_parens_in_unary(operand),
+                format_expr_impl(operand, max_cols, indent)
+            )
+        ),
+        Expr::PostfixOp { expr: operand, .. } if contains_comments(operand) => format!(
+            "{}!",
+            parens_if(
+                needs_parens_in_postfix(operand),
+                format_expr_impl(operand, max_cols, indent)
+            )
+        ),
+        Expr::Access { expr: base, index } if contains_comments(expr) => format!(
+            "{}[{}]",
+            parens_if(
+                needs_parens_in_postfix(base),
+                format_expr_impl(base, max_cols, indent)
+            ),
+            format_expr_impl(index, max_cols, indent)
+        ),
+        Expr::DotAccess { expr: base, field } if contains_comments(base) => format!(
+            "{}.{}",
+            parens_if(
+                needs_parens_in_postfix(base),
+                format_expr_impl(base, max_cols, indent)
+            ),
+            field
+        ),
+        Expr::Spread(inner) if contains_comments(inner) => {
+            format!("...{}", format_expr_impl(inner, max_cols, indent))
+        }
         // For other expression types, fall back to single-line
         _ => expr_to_source(expr),
+    }
+}
+
+/// Whether a list, record or do-block anywhere inside `expr` carries a comment. Such an
+/// expression must not be printed through `expr_to_source`, which drops the comments of lists
+/// and records.
+fn contains_comments(expr: &SpannedExpr) -> bool {
+    match &expr.node {
+        Expr::List(items) => items
+            .iter()
+            .any(|c| c.has_comments() || contains_comments(&c.node)),
+        Expr::Record(entries) => entries.iter().any(|c| {
+            c.has_comments()
+                || match &c.node.key {
+                    RecordKey::Dynamic(key) | RecordKey::Spread(key) => contains_comments(key),
+                    _ => false,
+                }
+                || contains_comments(&c.node.value)
+        }),
+        Expr::DoBlock {
+            statements,
+            return_expr,
+        } => {
+            statements
+                .iter()
+                .any(|c| c.has_comments() || contains_comments(&c.node))
+                || return_expr.has_comments()
+                || contains_comments(&return_expr.node)
+        }
+        Expr::Lambda { body, .. } => contains_comments(body),
+        Expr::Conditional {
+            condition,
+            then_expr,
+            else_expr,
+        } => {
+            contains_comments(condition)
+                || contains_comments(then_expr)
+                || contains_comments(else_expr)
+        }
+        Expr::Assignment { value, .. } => contains_comments(value),
+        Expr::Output { expr } => contains_comments(expr),
+        Expr::Call { func, args } => contains_comments(func) || args.iter().any(contains_comments),
+        Expr::Access { expr, index } => contains_comments(expr) || contains_comments(index),
+        Expr::DotAccess { expr, .. } => contains_comments(expr),
+        Expr::BinaryOp { left, right, .. } => contains_comments(left) || contains_comments(right),
+        Expr::UnaryOp { expr, .. } => contains_comments(expr),
+        Expr::PostfixOp { expr, .. } => contains_comments(expr),
+        Expr::Spread(expr) => contains_comments(expr),
+        _ => false,
+    }
+}
+
+fn parens_if(needed: bool, formatted: String) -> String {
+    if needed {
+        format!("({})", formatted)
+    } else {
+        formatted
+    }
+}
+
+fn unary_op_str(op: &UnaryOp) -> &'static str {
+    match op {
+        UnaryOp::Negate => "-",
+        UnaryOp::Not => "!",
+        UnaryOp::Invert => "~",
     }
 }
 
